@@ -212,3 +212,66 @@ package inference
 //@ func (*Engine).ObserveUpstream$1
 //@ prop C04 C03
 //@ ensures orders-by-import-path (= (= result 0) (= (pkgpath (. i Package)) (pkgpath (. j Package))))
+
+//@ -- C06: choice of sites to export. mtrue: a site is marked in one of the three boolean maps.
+//@ define (mtrue m s) (and (mapin m s) (mapget m s))
+//@ define (visitable i s) (and (= (det i s) 1) (not (. s Exported)))
+//@ -- a site has been visited by the backward walk iff it is marked as reaching an exported site, or it was promoted
+//@ -- to toExport while already marked by the forward walk (and symmetrically for the forward walk)
+//@ define (bvis te re rfe s) (or (mtrue re s) (and (mtrue te s) (mtrue rfe s)))
+//@ define (fvis te re rfe s) (or (mtrue rfe s) (and (mtrue te s) (mtrue re s)))
+//@ define (implicantsOf i s) (. (undet (imVal i s)) Implicants)
+//@ define (implicatesOf i s) (. (undet (imVal i s)) Implicates)
+//@ define (bclosed i te re rfe s) (forall ((k Int)) (=> (and (<= 0 k) (< k (len (. (implicantsOf i s) Pairs))))
+//@    (let ((p (. (idx (. (implicantsOf i s) Pairs) k) Key))) (=> (visitable i p) (bvis te re rfe p)))))
+//@ define (fclosed i te re rfe s) (forall ((k Int)) (=> (and (<= 0 k) (< k (len (. (implicatesOf i s) Pairs))))
+//@    (let ((p (. (idx (. (implicatesOf i s) Pairs) k) Key))) (=> (visitable i p) (fvis te re rfe p)))))
+//@ define (marksKept m) (forall ((s primitiveSite)) (=> (old (mtrue m s)) (mtrue m s)))
+//@ define (marksSame m) (forall ((s primitiveSite)) (= (mtrue m s) (old (mtrue m s))))
+//@ -- an unexported site is in toExport only because both walks met there
+//@ define (promotedOK te re rfe) (forall ((s primitiveSite)) (=> (and (not (. s Exported)) (mtrue te s)) (or (mtrue re s) (mtrue rfe s))))
+//@ define (threeMaps te re rfe) (and (not (= te nil)) (not (= re nil)) (not (= rfe nil)) (not (= te re)) (not (= te rfe)) (not (= re rfe)))
+
+//@ -- markReachesExported: the backward walk. Every site it newly visits has all its visitable implicants visited
+//@ -- (so the visited set is closed under Implicants), it only ever adds marks, and only to visitable sites.
+//@ func (*InferredMap).chooseSitesToExport$2
+//@ prop C06
+//@ requires (and (imOK i) (threeMaps toExport reachesExported reachableFromExported) (promotedOK toExport reachesExported reachableFromExported))
+//@ modifies (map toExport) (obj i.mapping) (map i.mapping.inner)
+//@ ensures graph-untouched (and (heap-unchanged (obj i.mapping)) (heap-unchanged (map i.mapping.inner)))
+//@ ensures promoted-ok (promotedOK toExport reachesExported reachableFromExported)
+//@ ensures maps-stay (and (= toExport (old toExport)) (= reachesExported (old reachesExported)) (= reachableFromExported (old reachableFromExported)) (= i (old i)))
+//@ ensures only-adds-marks (and (marksKept toExport) (marksKept reachesExported) (marksSame reachableFromExported))
+//@ ensures site-visited (=> (visitable i site) (bvis toExport reachesExported reachableFromExported site))
+//@ ensures newly-visited-sites-are-closed (forall ((s primitiveSite)) (=> (and (bvis toExport reachesExported reachableFromExported s) (not (old (bvis toExport reachesExported reachableFromExported s))))
+//@    (and (visitable i s) (bclosed i toExport reachesExported reachableFromExported s))))
+//@ ensures promoted-only-when-both-walks-met (forall ((s primitiveSite)) (=> (and (mtrue toExport s) (not (old (mtrue toExport s)))) (mtrue reachableFromExported s)))
+//@ loop 0 invariant walk (and (promotedOK toExport reachesExported reachableFromExported) (heap-unchanged (obj i.mapping)) (heap-unchanged (map i.mapping.inner)) (= toExport (old toExport)) (= reachesExported (old reachesExported)) (= reachableFromExported (old reachableFromExported)) (= i (old i))
+//@    (marksKept toExport) (marksKept reachesExported) (marksSame reachableFromExported)
+//@    (bvis toExport reachesExported reachableFromExported site)
+//@    (<= -1 rangeindex) (< rangeindex (len (. (implicantsOf i site) Pairs)))
+//@    (forall ((k Int)) (=> (and (<= 0 k) (<= k rangeindex)) (let ((p (. (idx (. (implicantsOf i site) Pairs) k) Key))) (=> (visitable i p) (bvis toExport reachesExported reachableFromExported p)))))
+//@    (forall ((s primitiveSite)) (=> (and (bvis toExport reachesExported reachableFromExported s) (not (old (bvis toExport reachesExported reachableFromExported s))) (not (= s site)))
+//@        (and (visitable i s) (bclosed i toExport reachesExported reachableFromExported s))))
+//@    (forall ((s primitiveSite)) (=> (and (mtrue toExport s) (not (old (mtrue toExport s)))) (mtrue reachableFromExported s))))
+
+//@ func (*InferredMap).chooseSitesToExport$1
+//@ prop C06
+//@ requires (and (imOK i) (threeMaps toExport reachesExported reachableFromExported) (promotedOK toExport reachesExported reachableFromExported))
+//@ modifies (map toExport) (obj i.mapping) (map i.mapping.inner)
+//@ ensures graph-untouched (and (heap-unchanged (obj i.mapping)) (heap-unchanged (map i.mapping.inner)))
+//@ ensures promoted-ok (promotedOK toExport reachesExported reachableFromExported)
+//@ ensures maps-stay (and (= toExport (old toExport)) (= reachesExported (old reachesExported)) (= reachableFromExported (old reachableFromExported)) (= i (old i)))
+//@ ensures only-adds-marks (and (marksKept toExport) (marksKept reachableFromExported) (marksSame reachesExported))
+//@ ensures site-visited (=> (visitable i site) (fvis toExport reachesExported reachableFromExported site))
+//@ ensures newly-visited-sites-are-closed (forall ((s primitiveSite)) (=> (and (fvis toExport reachesExported reachableFromExported s) (not (old (fvis toExport reachesExported reachableFromExported s))))
+//@    (and (visitable i s) (fclosed i toExport reachesExported reachableFromExported s))))
+//@ ensures promoted-only-when-both-walks-met (forall ((s primitiveSite)) (=> (and (mtrue toExport s) (not (old (mtrue toExport s)))) (mtrue reachesExported s)))
+//@ loop 0 invariant walk (and (promotedOK toExport reachesExported reachableFromExported) (heap-unchanged (obj i.mapping)) (heap-unchanged (map i.mapping.inner)) (= toExport (old toExport)) (= reachesExported (old reachesExported)) (= reachableFromExported (old reachableFromExported)) (= i (old i))
+//@    (marksKept toExport) (marksKept reachableFromExported) (marksSame reachesExported)
+//@    (fvis toExport reachesExported reachableFromExported site)
+//@    (<= -1 rangeindex) (< rangeindex (len (. (implicatesOf i site) Pairs)))
+//@    (forall ((k Int)) (=> (and (<= 0 k) (<= k rangeindex)) (let ((p (. (idx (. (implicatesOf i site) Pairs) k) Key))) (=> (visitable i p) (fvis toExport reachesExported reachableFromExported p)))))
+//@    (forall ((s primitiveSite)) (=> (and (fvis toExport reachesExported reachableFromExported s) (not (old (fvis toExport reachesExported reachableFromExported s))) (not (= s site)))
+//@        (and (visitable i s) (fclosed i toExport reachesExported reachableFromExported s))))
+//@    (forall ((s primitiveSite)) (=> (and (mtrue toExport s) (not (old (mtrue toExport s)))) (mtrue reachesExported s))))
